@@ -161,6 +161,23 @@ func §E() {
 	rt := seq.Start(byRet).(seq.Generator[int])
 	rt.MoveNext()
 	tr.V(180, rt.Result())
+
+	// the effectful argument sits one or two levels below the call the Delay returns
+	c := 10
+	yv := func(tag, x int) seq.Seq[int] { tr.V(tag, x); return seq.Bind(x, seq.Normal[int]) }
+	deep1 := seq.Delay(func() seq.Seq[int] { return seq.Combine(seq.Combine(yv(190, c), yv(191, c+1)), seq.Normal[int]()) })
+	deep2 := seq.Delay(func() seq.Seq[int] {
+		return seq.Combine(seq.Delay(func() seq.Seq[int] { return yv(192, c+2) }), seq.Combine(seq.Combine(yv(193, c+3), seq.Normal[int]()), seq.Return[int]()))
+	})
+	loopy := seq.Delay(func() seq.Seq[int] { return seq.Loop(seq.Combine(yv(194, c+4), seq.Break[int]())) })
+	whiley := seq.Delay(func() seq.Seq[int] {
+		n := 0
+		return seq.While(func() bool { n++; return n < 2 }, seq.Combine(yv(195, c+5), seq.Normal[int]()))
+	})
+	tr.E(196)
+	c = 20
+	§drain(197, seq.Combine(deep1, seq.Combine(loopy, whiley)))
+	§drain(198, deep2)
 }`, "user-seq-code")),
 		withSeq(by("by-user-wrappers-of-generic-seq-functions-with-inferred-type-arguments", `
 func §E() {
